@@ -150,7 +150,36 @@ fn near_midnight_terms(ctx: &Ctx) -> Vec<(i64, i64, i64)> {
   out
 }
 
+/// every term of years 2..9998 as a light event (label and instant only): the sequence of ALL term instants
+fn all_term_instants(ctx: &Ctx) -> usize {
+  let parts = chunks(2, 9998, ctx.threads);
+  let mut total = 0usize;
+  std::thread::scope(|s| {
+    let hs: Vec<_> = parts.into_iter().enumerate().map(|(t, (a, b))| {
+      s.spawn(move || {
+        let mut sink = ctx.sink("Trace_C06", &format!("g{:02}", t));
+        sink.segment();
+        let mut first = true;
+        for y in a..=b {
+          for i in 0..24i64 {
+            let tt = catch(|| SolarTerm::from_index(y as isize, i as isize)).and_then(|t| term_time(&t));
+            let (tj, ts) = tt.as_ref().map(inst).unwrap_or((-1, -1));
+            sink.put(Ev::new("tg").b("s", first).i("y", y).i("i", i).i("tj", tj).i("ts", ts).done());
+            first = false;
+          }
+        }
+        sink.total
+      })
+    }).collect();
+    for h in hs {
+      total += h.join().unwrap();
+    }
+  });
+  total
+}
+
 pub fn run(ctx: &Ctx) -> usize {
+  let light = if ctx.quick() { all_term_instants(ctx) } else { 0 };
   let mut wins = day_windows(ctx, 601, 150, 200, 1);
   let near = if ctx.quick() { near_midnight_terms(ctx) } else { Vec::new() };
   for (_, _, j) in near.iter() {
@@ -201,5 +230,5 @@ pub fn run(ctx: &Ctx) -> usize {
       b += h.join().unwrap();
     }
   });
-  a + b
+  a + b + light
 }
